@@ -20,7 +20,7 @@ RULE = (
     "collects the thresholds T = projected_mem of every operation of the unoptimized and of the optimized plan. Pass 2 rebuilds the "
     "same program with allowed_mem = t-1, t or t+1 for a drawn t in T (and reserved_mem in {0, r}), a drawn optimizer (default, "
     "multiple-input limits, always/never_fuse, legacy, fuse-all, fuse-only, or none), a drawn entry point (compute, Array.compute, "
-    "store, to_zarr) and executor. Oracle: (i) the call raises the memory ValueError iff max projected_mem over the FINAL plan > "
+    "store, to_zarr; with or without resume=True on storage that holds nothing yet) and executor. Oracle: (i) the call raises the memory ValueError iff max projected_mem over the FINAL plan > "
     "allowed_mem (equality is accepted; a rechunk planner refusal at build time also counts as refused-before-running); (ii) on "
     "refusal the executor was never entered, no callback fired, the store trace has no write at all and targets do not exist; "
     "(iii) otherwise the computation runs and agrees with NumPy; (iv) for optimizers that do not force fusion, a plan that fits "
@@ -60,6 +60,8 @@ def case_strategy(opts=None, max_ops=5, min_ops=1):
             "entry": draw(st.sampled_from(["compute", "compute", "method", "store", "to_zarr"])),
             "executor": draw(st.sampled_from(["single-threaded", "single-threaded", "threads"])),
             "storage": draw(st.sampled_from(["trace", "trace", "workdir"])),
+            # the judged call may ask for resume (on storage that holds nothing yet): admission must not depend on it
+            "resume": draw(st.sampled_from([False, False, True])),
         }
 
     return cases()
@@ -191,9 +193,11 @@ def check_case(case) -> Outcome:
             cb = H.RecordingCallback()
             tstore = H.TraceStore(MemoryStore())
             raised = None
+            kwj = dict(kw2, resume=True) if case.get("resume") else kw2
+            labels.add(f"resume:{bool(case.get('resume'))}")
             try:
                 if case["entry"] == "compute":
-                    res = cubed.compute(*outs2, executor=ex, callbacks=[cb], **kw2)
+                    res = cubed.compute(*outs2, executor=ex, callbacks=[cb], **kwj)
                     got = np.asarray(res[-1])
                 elif case["entry"] == "method":
                     # the plan of this one array (it may fuse differently from the plan of all outputs together): judge the call by it
@@ -201,7 +205,7 @@ def check_case(case) -> Outcome:
                     proj = _projected(fp2.dag)
                     Pmax = max(proj) if proj else 0
                     should_refuse = Pmax > allowed
-                    got = np.asarray(arrs2[out_id].compute(executor=ex, callbacks=[cb], **kw2))
+                    got = np.asarray(arrs2[out_id].compute(executor=ex, callbacks=[cb], **kwj))
                 elif case["entry"] == "store":
                     # plan on a second build of the same program (a store call changes the array it is given, so the
                     # planning call and the judged call must not share arrays)
@@ -212,7 +216,7 @@ def check_case(case) -> Outcome:
                     proj = _projected(fpS.dag)
                     Pmax = max(proj) if proj else 0
                     should_refuse = Pmax > allowed
-                    cubed.store([arrs2[out_id]], [tstore], executor=ex, callbacks=[cb], **kw2)
+                    cubed.store([arrs2[out_id]], [tstore], executor=ex, callbacks=[cb], **kwj)
                     got = None
                 else:
                     arrs_p = P.build_cubed(prog, spec2)
@@ -222,7 +226,7 @@ def check_case(case) -> Outcome:
                     proj = _projected(fpS.dag)
                     Pmax = max(proj) if proj else 0
                     should_refuse = Pmax > allowed
-                    cubed.to_zarr(arrs2[out_id], tstore, path="t", executor=ex, callbacks=[cb], **kw2)
+                    cubed.to_zarr(arrs2[out_id], tstore, path="t", executor=ex, callbacks=[cb], **kwj)
                     got = None
             except Exception as e:
                 raised = e
